@@ -19,6 +19,7 @@ class DocSpec(object):
         self.markers = markers        # one per block / group, in order
         self.tails = {}               # block marker -> marker of a second group of the same block, behind two empty lines
         self.ignored = []             # markers under a header that freeform collection leaves out
+        self.shapes = set()
 
 
 def docstring_lines(rng, ind, uid, nblocks, layout, quote='"""', first_line_prose=True):
@@ -27,6 +28,7 @@ def docstring_lines(rng, ind, uid, nblocks, layout, quote='"""', first_line_pros
     markers = []
     tails = {}
     ignored = []
+    shapes = set()
     if layout == 'google':
         opening_header = rng.random() < 0.15
         # one docstring in six spells ALL its headers the other accepted ways (a double colon, a blank before the colon)
@@ -42,7 +44,20 @@ def docstring_lines(rng, ind, uid, nblocks, layout, quote='"""', first_line_pros
             head = ind + rng.choice(alt_tags or GOOGLE_TAGS)
             if opening_header and b == 0:
                 head = ind + quote + head.strip()
-            L += [head, ind + '    >>> print("%s")' % m, ind + '    %s' % m, '']
+            r_layout = rng.random()
+            if r_layout < 0.12 and not (opening_header and b == 0):
+                # an empty line under the header, then the examples at the header's own indentation (the layout of the
+                # standard library's docstrings under a google-style header)
+                L += [head, '', ind + '>>> print("%s")' % m, ind + '%s' % m, '']
+                shapes.add('google-body-at-the-indentation-of-its-header')
+                continue
+            if r_layout < 0.3 and not (opening_header and b == 0):
+                # an empty line between the header and its (indented) body
+                L += [head, '']
+                shapes.add('google-empty-line-under-the-header')
+            else:
+                L += [head]
+            L += [ind + '    >>> print("%s")' % m, ind + '    %s' % m, '']
             if rng.random() < 0.2 and not (opening_header and b == 0):
                 # the block goes on behind two (or three) empty lines: a second group of the same block
                 tails[m] = m + '77'
@@ -66,6 +81,7 @@ def docstring_lines(rng, ind, uid, nblocks, layout, quote='"""', first_line_pros
     ds = DocSpec(layout, markers)
     ds.tails = tails
     ds.ignored = ignored
+    ds.shapes = shapes
     ds.opening_header = layout == 'google' and opening_header
     ds.alt_tags = layout == 'google' and bool(alt_tags)
     return L, ds
@@ -105,6 +121,8 @@ class ModuleGen(object):
                 self.spec.features.add('google-headers-in-other-spellings')
         if ds.tails:
             self.spec.features.add('google-block-goes-on-behind-empty-lines')
+        for shp in ds.shapes:
+            self.spec.features.add(shp)
         for m in ds.ignored:
             self.spec.forbidden[m] = 'under a header that freeform collection leaves out'
             self.spec.features.add('freeform-block-left-out')
